@@ -48,6 +48,9 @@ abbrev sweepPeriod : Nat := NV.Gen.C09.sweepPeriod
 /-- ResetDuration of the verification configuration: next_reset = now + D/2 + rand () % (D/2); the configuration
     uses D = 2, so the random term is `rand () % 1 = 0` and next_reset = now + 1 exactly -/
 abbrev resetDuration : Nat := NV.Gen.C09.resetDuration
+/-- CleanupDuration (__TIME_TO_CLEAN_UP__) of the verification configuration: an object that nothing has applied to
+    for longer than this gets clean_up() from look_for_objects_to_swap() -/
+abbrev cleanupDuration : Nat := NV.Gen.C09.cleanupDuration
 
 inductive Mode | net | console
   deriving DecidableEq, Repr
@@ -70,10 +73,11 @@ inductive Op
   | hb (n : Nat)
   | w (s : String)
   | meh (m : Meh)
+  | it (tag : String)      -- input_to ("it_fire", 0, tag): the next line of this user goes to the callback
   deriving Repr
 
 inductive Kind
-  | logon | input | cmd (v : String) | netdead | hb | co (tag : String) | reset
+  | logon | input | cmd (v : String) | netdead | hb | co (tag : String) | reset | it (tag : String) | cleanup | prompt
   deriving DecidableEq, Repr
 
 inductive ConnB | ok | err | rej
@@ -88,7 +92,9 @@ structure Scripts where
 inductive Ev
   | start | cycle (n : Nat) | exitLoop | exitShutdown
   | tConnect (k : Nat) | tLogon (o : Oid) | tInput (o : Oid) (s : String) | tCmd (o : Oid) (v : String)
-  | tNetdead (o : Oid) | tHb (o : Oid) | tCo (o : Oid) (tag : String) | tReset (o : Oid)
+  | tNetdead (o : Oid) | tHb (o : Oid) | tCo (o : Oid) (tag : String) | tReset (o : Oid) | tCleanup (o : Oid)
+  | tIt (o : Oid) (tag : String) (line : String) | xIt (o : Oid) (tag : String) | tPrompt (o : Oid)
+  | tEpilog | tPreload (name : String)
   | xErr (who : String) | xCerr (o : Oid) | xDest (o t : Oid) | xCo (o : Oid) (tag : String) | xHb (o : Oid) (n : Nat)
   | meh (caught : Bool) (msg : String)
   | hbs (l : List String) | out (name : String) (text : String) | slots (n : Nat)
@@ -107,6 +113,7 @@ structure Conn where
   hasPI : Bool        -- HAS_PROCESS_INPUT
   closing : Bool      -- CLOSING
   out : String        -- everything add_message()d (canonical form)
+  inputTo : Option String := none   -- ip->input_to: the pending input_to() callback (its carry-over argument)
   deriving Repr
 
 structure CallOut where
@@ -114,6 +121,16 @@ structure CallOut where
   tag : String
   due : Nat
   deriving Repr
+
+/-- one entry of g_io_events[]: what the poll reported.  For a connection the entry holds the CONTEXT POINTER the
+    socket was registered with (`id` = serial of the interactive_t), resolved when the poll returns - not when the entry
+    is processed: an earlier entry of the same batch may have freed that record meanwhile (remove_interactive() then
+    clears the context of the entries still waiting - fix commit - so a stale entry can never reach a younger record
+    that the allocator placed at the same address). -/
+inductive IoEv
+  | wakeup | accept (client : Nat) | data (id : Nat) (text : String) | eof (id : Nat) | hup (id : Nat)
+  | console (text : String)
+  deriving Repr, DecidableEq
 
 structure W where
   mode : Mode := .net
@@ -130,6 +147,7 @@ structure W where
   objList : List Nat := []        -- obj_list restricted to the scripted plain objects (newest first)
   resetState : Nat → Bool := fun _ => false
   nextReset : Nat → Nat := fun _ => 0
+  refTime : Nat → Nat := fun _ => T0   -- ob->time_of_ref: when something last apply()d to the object
   now : Nat := T0                 -- current_time
   clock : Nat := T0               -- what time() returns
   nextSweep : Nat := 0            -- look_for_objects_to_swap: next_time
@@ -144,8 +162,10 @@ structure W where
   nConnect : Nat := 0
   shutdown : Bool := false        -- g_proceeding_shutdown
   closedByScript : List Nat := []
+  tcpClients : List Nat := []     -- ghost: clients whose connect() reached the listening socket (accepted or not)
   outs : List (Nat × String) := []   -- output of connections the driver has closed
   masterRef : Int := 0            -- ghost: master_ob->ref relative to the start of backend()
+  backlog : List IoEv := []       -- entries of g_io_events[] a longjmp out of process_io() left unprocessed
   crashed : Option String := none
   trace : List Ev := []
 
@@ -231,28 +251,26 @@ def resetDepth (w : W) : W := { w with mehDepth := 0 }
     `in_error = 1; in_mudlib_error_handler = 0; heart beat shut-off; in_error = 0;` (then longjmp) -/
 def errExit (w : W) : W := setErr (hbOff (setMeh (setErr w true) false)) false
 
-/-- the LPC handler of behaviour `recurse`: `catch (error ("mehinner"))` (FRAME_CATCH branch with
-    in_mudlib_error_handler = 1: print, flag := 0, longjmp to the catch), then `error ("mehagain")`: uncaught,
-    in_error = 1, in_mudlib_error_handler was 0 -> := 1, in_error = 0, and the master's handler is entered again -/
-def reenter (w : W) : W := setErr (setMeh (setErr (setMeh (bumpDepth w) false) true) true) false
-
 /-- mudlib_error_handler + the verification master's error_handler(): reports, then behaves per `meh`.
     Returns `true` when the handler itself raised (control has left through a nested error_handler/longjmp).
-    `fuel` bounds the re-entries of the `recurse` behaviour (the LPC handler stops after two re-entries). -/
+    Behaviour `recurse` (LPC): `catch (error ("mehinner"))`, then `error ("mehagain")`.  The caught error is delivered
+    to the catch's own context, which is not `mudlib_error_handler_context`: in_mudlib_error_handler STAYS set and the
+    handler goes on (C05's fix; before, the flag was cleared and the second error re-entered the handler).  The second
+    error reaches error_handler() with the flag still set and is delivered to the context the handler was entered
+    with: "error in mudlib error handler", flag := 0, no second report - the same exit as behaviour `raise`.  The LPC
+    handler counts its calls (`mehDepth`): every third call returns normally.
+    `fuel` is kept for the signature of the lemmas (nothing recurses any more). -/
 def callMasterHandler : Nat → W → String → W × Bool
   | 0, w, msg => (emit w (.meh false msg), false)
-  | fuel + 1, w, msg =>
+  | _ + 1, w, msg =>
     match w.meh with
     | .ok => (emit w (.meh false msg), false)
     | .raise =>
       -- error("mehfail") inside the handler: nested error_handler with in_mudlib_error_handler = 1
       (errExit (emit w (.meh false msg)), true)
     | .recurse =>
-      if w.mehDepth < 2 then
-        let r := callMasterHandler fuel (reenter (emit w (.meh false msg))) "mehagain"
-        if r.2 then (r.1, true) else (errExit r.1, true)
-      else
-        (resetDepth (emit w (.meh false msg)), false)
+      if w.mehDepth < 2 then (errExit (bumpDepth (emit w (.meh false msg))), true)
+      else (resetDepth (emit w (.meh false msg)), false)
 
 /-- error_handler() for an error outside any catch: everything up to (not including) the longjmp -/
 def errorHandler (w : W) (msg : String) : W :=
@@ -269,7 +287,8 @@ def errorHandler (w : W) (msg : String) : W :=
 
 /-- error_handler() for an error inside catch() (LOG_CATCHES): reported with caught = 1, then longjmp to the catch -/
 def caughtError (w : W) (msg : String) : W :=
-  if w.inMeh then { w with inMeh := false }
+  -- inside the master's handler: only logged; the catch's context is not the handler's entry context, the flag stays
+  if w.inMeh then w
   else
     let w := { w with inMeh := true }
     let w := emit w (.meh true msg)
@@ -369,10 +388,20 @@ def insertCallOut (l : List CallOut) (c : CallOut) : List CallOut :=
   | [] => [c]
   | x :: xs => if x.due ≥ c.due then c :: x :: xs else x :: insertCallOut xs c
 
-/-- an apply() on a plain object clears O_RESET_STATE -/
+/-- apply_low() on a plain object: `ob->time_of_ref = current_time` and O_RESET_STATE cleared -/
 def touch (w : W) : Oid → W
-  | .obj k => { w with resetState := fun x => if x = k then false else w.resetState x }
+  | .obj k => { w with resetState := fun x => if x = k then false else w.resetState x,
+                       refTime := fun x => if x = k then w.now else w.refTime x }
   | _ => w
+
+def armInputTo (tag : String) (c : Conn) : Conn := if c.inputTo.isNone then { c with inputTo := some tag } else c
+def clearInputTo (c : Conn) : Conn := { c with inputTo := none }
+
+/-- set_call(): `ob->interactive == 0 || ob->interactive->input_to` -> 0, else the sentence is installed -/
+def setInputTo (w : W) (o : Oid) (tag : String) : W :=
+  match w.inter o with
+  | none => w
+  | some id => mapConn w id (armInputTo tag)
 
 /-- run a script in object `self`; stops at the first uncaught error or when `self` destructs itself -/
 def runOps (rh : HookFn) (self : Oid) : List Op → W → R
@@ -401,6 +430,10 @@ def runOps (rh : HookFn) (self : Oid) : List Op → W → R
       -- tell_object(): add_message for a user; for a plain object the catch_tell apply touches it (O_RESET_STATE off)
       runOps rh self rest (addOut (touch w self) self (s ++ "|"))
     | .meh m => runOps rh self rest { w with meh := m }
+    | .it tag =>
+      -- input_to(): set_call (command_giver, ...) - command_giver is the user itself in logon / process_input /
+      -- command / input_to callbacks; refused (returns 0, no error) when there is no connection or one is pending
+      runOps rh self rest (setInputTo (emit w (.xIt self tag)) self tag)
 
 def kindEv (o : Oid) : Kind → Ev
   | .logon => .tLogon o
@@ -410,6 +443,9 @@ def kindEv (o : Oid) : Kind → Ev
   | .hb => .tHb o
   | .co tag => .tCo o tag
   | .reset => .tReset o
+  | .cleanup => .tCleanup o
+  | .prompt => .tPrompt o
+  | .it tag => .tIt o tag ""
 
 /-- run hook `k` of object `o` with nesting fuel -/
 def runHook (S : Scripts) : Nat → HookFn
@@ -438,10 +474,14 @@ def mudlibConnect (S : Scripts) (w : W) : W × Option Oid × Bool :=
       let w := { w with nUser := w.nUser + 1, masterRef := w.masterRef - 1 }   -- free_object (master_ob, ...)
       (mapConn (setInter (setInter w .master none) u (some id)) id (bindTo u), some u, false)
 
+/-- mudlib_logon(): `safe_apply (APPLY_LOGON, ...)` (fix commit) - logon() runs under its own recovery point, an
+    uncaught error in it is reported and stops there: process_io() goes on with the next event of the poll round.
+    (Before, the error unwound to backend() and the rest of the round was abandoned - socket events were reported again
+    by the next poll, a console completion was not.) -/
 def logonHook (rh : HookFn) (w : W) (u : Oid) : R :=
-  let w := emit w (.tLogon u)
+  let w := emit (pushCtx w) (.tLogon u)
   let w := addOut w u s!"hello_{u.name}|"
-  rh w u .logon
+  (popCtx (rh w u .logon).1, false)
 
 /-- after new_interactive(): mudlib_connect(); rejected -> remove the record again; accepted -> logon() -/
 def afterConnect (S : Scripts) (rh : HookFn) (w : W) : R :=
@@ -484,10 +524,6 @@ def userData (w : W) (id : Nat) (telnet : Bool) (text : String) : W :=
     let w := mapConn w id (bufferText ls (splitLines c.part text).2)
     if telnet then addOut w c.ob (String.join (ls.map (fun _ => "|"))) else w
 
-inductive IoEv
-  | wakeup | accept (client : Nat) | data (client : Nat) (text : String) | eof (client : Nat) | console (text : String)
-  deriving Repr
-
 def connOfClient (w : W) (client : Nat) : Option Conn :=
   ((slots w).find? (fun s => match s with | some c => c.client == client | none => false)).join
 
@@ -495,8 +531,8 @@ def connOfClient (w : W) (client : Nat) : Option Conn :=
 def ioEvent (S : Scripts) (rh : HookFn) (w : W) : IoEv → R
   | .wakeup => (w, false)
   | .accept client => acceptConn S rh w client
-  | .data client text =>
-    match connOfClient w client with
+  | .data id text =>
+    match findConn w id with                  -- is_interactive_user (evt->context)
     | none => (w, false)
     | some c =>
       -- "Validate interactive is still valid": !ip->ob || destructed || ip->ob->interactive != ip
@@ -504,8 +540,16 @@ def ioEvent (S : Scripts) (rh : HookFn) (w : W) : IoEv → R
       let w := userData w c.id true text
       -- after get_user_data: re-validated through the saved object (fix commit), never through ip
       (w, false)
-  | .eof client =>
-    match connOfClient w client with
+  | .eof id =>
+    -- EVENT_READ, recv() returns 0: get_user_data() calls remove_interactive (ip->ob, 0)
+    match findConn w id with
+    | none => (w, false)
+    | some c =>
+      if w.dead c.ob || w.inter c.ob ≠ some c.id then (w, false) else
+      (removeInteractive rh w c.ob false, false)
+  | .hup id =>
+    -- EVENT_ERROR | EVENT_CLOSE (connection reset): remove_interactive (ip->ob, 0) without reading
+    match findConn w id with
     | none => (w, false)
     | some c =>
       if w.dead c.ob || w.inter c.ob ≠ some c.id then (w, false) else
@@ -525,6 +569,27 @@ def processIoEvents (S : Scripts) (rh : HookFn) : List IoEv → W → R
   | [], w => (w, false)
   | e :: es, w =>
     if (ioEvent S rh w e).2 then ((ioEvent S rh w e).1, true) else processIoEvents S rh es (ioEvent S rh w e).1
+
+/-- the entries behind one whose handler left process_io() by longjmp: they are never looked at again, but their
+    descriptors are still ready, so the next poll reports them once more (level-triggered registration).  Since
+    logon() runs under safe_apply (fix commit) no scripted handler leaves process_io() this way any more (what is left
+    in the C code: process_input of the ASCII port in get_user_data) - `abandoned` is `[]` on every scripted run; the
+    mechanism is kept because process_io() itself still has no recovery point. -/
+def abandoned (S : Scripts) (rh : HookFn) : List IoEv → W → List IoEv
+  | [], _ => []
+  | e :: es, w => if (ioEvent S rh w e).2 then es else abandoned S rh es (ioEvent S rh w e).1
+
+/-- connection events are reported again; a console completion is not (its doorbell has been reset) and a second
+    pending connection is not scripted -/
+def isConnEv : IoEv → Bool
+  | .data _ _ | .eof _ | .hup _ => true
+  | _ => false
+
+def clearBacklog (w : W) : W := { w with backlog := [] }
+def setBacklog (w : W) (l : List IoEv) : W := { w with backlog := l }
+
+/-- what the next poll reports on top of the new events -/
+def pendingEvents (w : W) : List IoEv := w.backlog.filter isConnEv
 
 /-- process_io(): all events, then `if (all_users && all_users[0]) flush_message (all_users[0])` -/
 def processIo (S : Scripts) (rh : HookFn) (w : W) (evs : List IoEv) : R :=
@@ -578,6 +643,39 @@ def commandStage (rh : HookFn) (w : W) (cg : Oid) (line : String) : R :=
     let r := rh (emit w (.tCmd cg verb)) cg (.cmd verb)
     if r.2 then (r.1, true) else (addOut r.1 cg s!"ack_{verb}|", false)
 
+/-- `ip->input_to` -/
+def inputToOf (w : W) (id : Nat) : Option String := match findConn w id with | some c => c.inputTo | none => none
+
+/-- print_prompt (ip): only while no input_to() is pending the user object's write_prompt() is applied (unprotected:
+    an error unwinds to backend()); the record is re-validated (IP_VALID) before flush_message (ip) touches it.  The
+    scripted write_prompt() writes the prompt text itself.  The master is not a user object: nothing happens. -/
+def promptStage (rh : HookFn) (w : W) (cg : Oid) (id : Nat) : R :=
+  if cg = .master then (w, false) else
+  if (inputToOf w id).isSome then (w, false) else
+  let r := rh (emit w (.tPrompt cg)) cg .prompt
+  if r.2 then (r.1, true) else
+  if r.1.inter cg ≠ some id then (r.1, false) else               -- IP_VALID
+  (addOut (useConn r.1 id) cg ">_", false)
+
+/-- the ordinary path of process_user_command(): process_input, VALIDATE_IP, the command, VALIDATE_IP, the prompt -/
+def plainCommand (rh : HookFn) (w : W) (cg : Oid) (id : Nat) (line : String) : W × Bool × Bool :=
+  let hasPI := hasPIOf w id
+  let r1 := inputStage rh w cg line hasPI
+  if r1.2 then (r1.1, true, true) else
+  if hasPI && r1.1.inter cg ≠ some id then (r1.1, true, false) else      -- VALIDATE_IP
+  let r2 := commandStage rh r1.1 cg line
+  if r2.2 then (r2.1, true, true) else
+  if r2.1.inter cg ≠ some id then (r2.1, true, false) else               -- VALIDATE_IP
+  ((promptStage rh (useConn r2.1 id) cg id).1, true, (promptStage rh (useConn r2.1 id) cg id).2)
+
+/-- call_function_interactive(): the sentence is freed and `ip->input_to` cleared BEFORE the callback runs (it may
+    call input_to() again); the line goes to the callback instead of process_input / the command parser -/
+def inputToCommand (rh : HookFn) (w : W) (cg : Oid) (id : Nat) (line : String) (tag : String) : W × Bool × Bool :=
+  let r := rh (emit (mapConn w id clearInputTo) (.tIt cg tag line)) cg (.it tag)
+  if r.2 then (r.1, true, true) else
+  if r.1.inter cg ≠ some id then (r.1, true, false) else                 -- VALIDATE_IP
+  ((promptStage rh (useConn r.1 id) cg id).1, true, (promptStage rh (useConn r.1 id) cg id).2)
+
 /-- process_user_command() once get_user_command() has picked a record: (state, processed, uncaught error) -/
 def serveCommand (rh : HookFn) (w : W) (c0 : Conn) : W × Bool × Bool :=
   let cg := c0.ob                               -- command_giver = ip->ob
@@ -587,15 +685,9 @@ def serveCommand (rh : HookFn) (w : W) (c0 : Conn) : W × Bool × Bool :=
   | none => (w, true, false)
   | some id =>
     let w := updateLoadAv (useConn w id)        -- clear_notify (ip); update_load_av ()
-    let hasPI := hasPIOf w id
-    let r1 := inputStage rh w cg line hasPI
-    if r1.2 then (r1.1, true, true) else
-    if hasPI && r1.1.inter cg ≠ some id then (r1.1, true, false) else      -- VALIDATE_IP
-    let r2 := commandStage rh r1.1 cg line
-    if r2.2 then (r2.1, true, true) else
-    if r2.1.inter cg ≠ some id then (r2.1, true, false) else               -- VALIDATE_IP
-    -- print_prompt (ip); tell_object (ip->ob, prompt): the master is not a user object, nothing reaches the socket
-    (if cg = .master then useConn r2.1 id else addOut (useConn r2.1 id) cg ">_", true, false)
+    match inputToOf w id with
+    | some tag => inputToCommand rh w cg id line tag
+    | none => plainCommand rh w cg id line
 
 /-- process_user_command(): returns (state, a command was processed, uncaught error) -/
 def processUserCommand (rh : HookFn) (w : W) : W × Bool × Bool :=
@@ -625,19 +717,51 @@ def hbLoop (rh : HookFn) : Nat → W → R
       if r.2 then (r.1, true) else
       if r.1.hbNext = r.1.hbToDo then (r.1, false) else hbLoop rh n r.1
 
-/-- reset_object(): next_reset first, then apply (clears O_RESET_STATE), O_RESET_STATE set when it returns -/
-def resetObject (rh : HookFn) (w : W) (k : Nat) : W :=
-  let r := rh (emit { w with nextReset := fun x => if x = k then w.now + resetDuration / 2 else w.nextReset x }
+/-- reset_object(): next_reset first, then apply (time_of_ref, clears O_RESET_STATE), O_RESET_STATE set when it returns;
+    the Bool says that reset() raised an error (longjmp to the recovery point of the sweep) -/
+def resetObjectR (rh : HookFn) (w : W) (k : Nat) : R :=
+  let r := rh (emit { w with nextReset := fun x => if x = k then w.now + resetDuration / 2 else w.nextReset x,
+                             refTime := fun x => if x = k then w.now else w.refTime x }
                     (.tReset (.obj k))) (.obj k) .reset
-  if r.2 then r.1 else { r.1 with resetState := fun x => if x = k then true else r.1.resetState x }
+  if r.2 then (r.1, true) else ({ r.1 with resetState := fun x => if x = k then true else r.1.resetState x }, false)
 
-/-- look_for_objects_to_swap(): reset() of every object that is due; own recovery point (the list walk restarts) -/
-def sweepResets (rh : HookFn) : List Nat → W → W
-  | [], w => w
+def resetObject (rh : HookFn) (w : W) (k : Nat) : W := (resetObjectR rh w k).1
+
+/-- the clean_up branch of look_for_objects_to_swap(): O_RESET_STATE is saved, apply (APPLY_CLEAN_UP) (time_of_ref,
+    clears O_RESET_STATE), and - unless the object is gone - the saved flag is or-ed back.  An error in clean_up()
+    leaves by longjmp: the saved flag is NOT restored (the restarted walk finds the object due for reset() again).
+    The scripted clean_up() returns 1, so O_WILL_CLEAN_UP stays.  The Bool says that clean_up() raised. -/
+def cleanupObject (rh : HookFn) (w : W) (k : Nat) : R :=
+  let r := rh (emit (touch w (.obj k)) (.tCleanup (.obj k))) (.obj k) .cleanup
+  if r.2 then (r.1, true) else
+  if r.1.dead (.obj k) then (r.1, false) else
+  ({ r.1 with resetState := fun x => if x = k then (r.1.resetState k || w.resetState k) else r.1.resetState x }, false)
+
+/-- one object of the walk: `ref_time` is read BEFORE reset() (so a reset does not postpone the clean_up); the Bool
+    says that reset() or clean_up() raised (longjmp to the recovery point in front of the walk) -/
+def sweepObject (rh : HookFn) (w : W) (k : Nat) : R :=
+  let r := if w.nextReset k < w.now && !w.resetState k then resetObjectR rh w k else (w, false)
+  if r.2 then (r.1, true) else
+  -- an object destructed by its own reset() is not scripted (the C code would still apply clean_up to it)
+  if r.1.dead (.obj k) then (r.1, false) else
+  if 0 < cleanupDuration && cleanupDuration < r.1.now - w.refTime k then cleanupObject rh r.1 k else (r.1, false)
+
+/-- one walk over obj_list, up to the first error -/
+def sweepPass (rh : HookFn) : List Nat → W → R
+  | [], w => (w, false)
   | k :: ks, w =>
-    if w.dead (.obj k) then sweepResets rh ks w else
-    if w.nextReset k < w.now && !w.resetState k then sweepResets rh ks (resetObject rh w k)
-    else sweepResets rh ks w
+    if w.dead (.obj k) then sweepPass rh ks w else
+    if (sweepObject rh w k).2 then ((sweepObject rh w k).1, true) else sweepPass rh ks (sweepObject rh w k).1
+
+/-- look_for_objects_to_swap(): reset() and clean_up() of every object that is due.  The recovery point sits in
+    front of the walk: after an error the walk RESTARTS at the list head (objects already handled are not due any
+    more; the failing object has a fresh next_reset / time_of_ref, but a failing clean_up() has cleared its
+    O_RESET_STATE, so the restarted walk may reset() it at once).  `fuel` bounds the restarts: every error advances
+    next_reset or time_of_ref of its object, at most three per object and sweep. -/
+def sweepResets (rh : HookFn) : Nat → W → W
+  | 0, w => w
+  | fuel + 1, w => if (sweepPass rh w.objList w).2 then sweepResets rh fuel (sweepPass rh w.objList w).1
+                   else (sweepPass rh w.objList w).1
 
 /-- call_out(): every due entry fires, entries of destructed objects are dropped; own recovery point per entry -/
 def sweepCallOuts (rh : HookFn) : Nat → W → W
@@ -664,7 +788,7 @@ def timerSweeps (rh : HookFn) (w : W) : W :=
   let w := { w with curHb := none }
   let w :=
     if w.now < w.nextSweep then w else
-    popCtx (sweepResets rh w.objList (pushCtx { w with nextSweep := w.now + sweepPeriod }))
+    popCtx (sweepResets rh (3 * w.objList.length + 3) (pushCtx { w with nextSweep := w.now + sweepPeriod }))
   popCtx (sweepCallOuts rh (w.callouts.length) (pushCtx w))
 
 /-- call_heart_beat() -/
@@ -672,24 +796,47 @@ def callHeartBeat (rh : HookFn) (w : W) : R :=
   let r := hbRound rh { w with hbFlag := false, now := w.clock, hbToDo := w.hbs.length }
   if r.2 then (r.1, true) else (timerSweeps rh r.1, false)
 
+/-! ## preload_objects() (backend.c; called by main() before backend()) -/
+
+/-- the loop over the array epilog() returned: master->preload (file) for every entry; an error is reported, the
+    recovery point in front of the loop does `ix++` and the loop goes on with the NEXT file ("effectively a continue") -/
+def preloadFiles : List (String × Bool) → W → W
+  | [], w => w
+  | (name, raises) :: fs, w =>
+    if raises then preloadFiles fs (errorHandler (emit (emit w (.tPreload name)) (.xErr name)) s!"boom {name}")
+    else preloadFiles fs (emit w (.tPreload name))
+
+/-- preload_objects(): epilog() under its own recovery point (an error there: nothing is preloaded), then the files
+    under a second one -/
+def preloadObjects (epilogRaises : Bool) (files : List (String × Bool)) (w : W) : W :=
+  if epilogRaises then popCtx (errorHandler (emit (emit (pushCtx w) .tEpilog) (.xErr "epilog")) "boom epilog")
+  else popCtx (preloadFiles files (pushCtx (popCtx (emit (pushCtx w) .tEpilog))))
+
 /-! ## backend() -/
 
 inductive Action
-  | tick (dt : Int) | conn (c : Nat) | send (c : Nat) (text : String) | close (c : Nat) | cin (text : String) | idle
+  | tick (dt : Int) | conn (c : Nat) | send (c : Nat) (text : String) | close (c : Nat) | reset (c : Nat)
+  | cin (text : String) | idle
   deriving Repr
 
 /-- what the outside world does while the driver waits in do_comm_polling(): returns the reported I/O events -/
 def applyAction (w : W) : Action → W × List IoEv
   | .tick dt => ({ w with clock := (Int.ofNat w.clock + dt).toNat, hbFlag := true }, [.wakeup])
-  | .conn c => (w, [.accept c])
+  | .conn c => ({ w with tcpClients := c :: w.tcpClients }, [.accept c])
   | .send c text =>
     match connOfClient w c with
-    | some _ => (w, [.data c text])
+    | some r => (w, [.data r.id text])
     | none => (w, [])
   | .close c =>
     let w := { w with closedByScript := c :: w.closedByScript }
     match connOfClient w c with
-    | some _ => (w, [.eof c])
+    | some r => (w, [.eof r.id])
+    | none => (w, [])
+  | .reset c =>
+    -- the client aborts the connection (RST): the socket reports error / hang-up
+    let w := { w with closedByScript := c :: w.closedByScript }
+    match connOfClient w c with
+    | some r => (w, [.hup r.id])
     | none => (w, [])
   | .cin text => if w.mode = .console then (w, [.console text]) else (w, [])   -- no console queue in network mode
   | .idle => (w, [])
@@ -710,8 +857,8 @@ def cycleHead (n : Nat) (acts : List Action) (w : W) : W × List IoEv :=
 
 /-- the body of one iteration after the poll: process_io, the command loop, call_heart_beat -/
 def cycleBody (S : Scripts) (rh : HookFn) (connected : Nat) (w : W) (evs : List IoEv) : W × Bool :=
-  let r1 := if evs.isEmpty then (w, false) else processIo S rh w evs
-  if r1.2 then (recover r1.1, false) else
+  let r1 := if evs.isEmpty then (clearBacklog w, false) else processIo S rh (clearBacklog w) evs
+  if r1.2 then (recover (setBacklog r1.1 (abandoned S rh evs (clearBacklog w))), false) else
   let r2 := commandLoop rh connected r1.1
   if r2.2 then (recover r2.1, false) else
   if r2.1.hbFlag then
@@ -723,7 +870,8 @@ def cycleBody (S : Scripts) (rh : HookFn) (connected : Nat) (w : W) (evs : List 
     The Bool says whether the iteration reached its end (where the H1 hook sits) instead of leaving by longjmp. -/
 def cycle (S : Scripts) (rh : HookFn) (n : Nat) (acts : List Action) (w : W) : W × Bool :=
   if w.shutdown then (w, false) else
-  cycleBody S rh ((slots w).filter Option.isSome).length (cycleHead n acts w).1 (cycleHead n acts w).2
+  cycleBody S rh ((slots w).filter Option.isSome).length (cycleHead n acts w).1
+    (pendingEvents w ++ (cycleHead n acts w).2)
 
 /-- backend() up to the loop: save_context, recovery point, then the start-up steps - initial tick, console user -
     each exactly once even when the previous one left through the recovery point (fix commits) -/
@@ -776,9 +924,12 @@ def insertByKey (e : Nat × String) : List (Nat × String) → List (Nat × Stri
 /-- (client, output) of every connection that still exists -/
 def liveOuts (w : W) : List (Nat × String) := (slots w).filterMap (fun s => s.map (fun c => (c.client, c.out)))
 
-/-- outputs the harness can still read: not of clients the script itself closed -/
+/-- outputs the harness can still read: not of clients the script itself closed.  A client whose connection the
+    driver never accepted (the accept was abandoned by a longjmp, or the driver was shut down first) has read nothing. -/
 def allOuts (w : W) : List (Nat × String) :=
-  (w.outs.reverse ++ liveOuts w).filter (fun e => !(w.closedByScript.contains e.1))
+  let known := w.outs.reverse ++ liveOuts w
+  let never := (w.tcpClients.reverse.filter (fun c => !(known.any (fun e => e.1 == c)))).map (fun c => (c, ""))
+  (known ++ never).filter (fun e => !(w.closedByScript.contains e.1))
 
 def exitEv (w : W) : Ev := if w.shutdown then .exitShutdown else .exitLoop
 def outEv (e : Nat × String) : Ev := .out s!"c{e.1}" e.2
